@@ -10,12 +10,13 @@
 (***************************************************************************)
 EXTENDS Scanner, Json
 
-CONSTANTS MaxLen, Bytes1
+CONSTANTS MaxLen, Bytes1,
+          Focus        \* "all": the general chunk menu;  "description": tapes that start with a Description line
 
 VARIABLE st
 vars == <<st>>
 
-Chunks ==
+AllChunks ==
   {PlainChunk(<<x>>) : x \in Bytes1}
   \cup {PlainChunk(KwBytes[k]) : k \in KwNames}
   \cup {PlainChunk(<<50,48,48>>)}                                    \* 200
@@ -24,8 +25,16 @@ Chunks ==
         BodyChunk(<<91,49,93>>, TRUE, TRUE, 0),        \* [1]
         BodyChunk(<<64,116>>, TRUE, FALSE, 0),         \* @t
         BodyChunk(<<123,120>>, FALSE, FALSE, 1)}       \* {x   (rejected by Len)
+\* inside / behind a Description text: line breaks, blanks, text, the "( )" frame, lines that are (or only
+\* begin like) a directive -- 3-byte keywords and codes are the shortest the look-ahead has to recognise
+DescChunks ==
+  {PlainChunk(<<x>>) : x \in {10, 13, 32, 120, 40, 41, 35}}
+  \cup {PlainChunk(KwBytes[k]) : k \in {"GET", "URL", "TAG", "Path", "Tags"}}
+  \cup {PlainChunk(<<50,48,48>>), PlainChunk(<<71,69>>), PlainChunk(<<54,48,48>>)}      \* 200  GE  600
+Chunks == IF Focus = "description" THEN DescChunks ELSE AllChunks
+Start == IF Focus = "description" THEN FeedChunk(Init0, PlainChunk(KwBytes["Description"] \o <<10>>)) ELSE Init0
 
-Init == st = Init0
+Init == st = Start
 Feed == /\ CanFeed(st)
         /\ \E ch \in Chunks : Len(st.tape) + Len(ch.b) <= MaxLen /\ st' = FeedChunk(st, ch)
 End == CanFeed(st) /\ st' = FeedEnd(st)
